@@ -413,6 +413,31 @@ Definition reports_of_change (in_cluster : string -> bool) (c : change) : list (
       if in_cluster (rkey r) && (c_err c || nonempty (res_warnings r)) then [(rkey r, RRejected)] else []
   end.
 
+(* processChangesFromGlobalConfiguration reports only the VirtualServers and TransportServers it adds or
+   updates; the delete changes of a GlobalConfiguration batch are applied but not reported *)
+Definition reports_of_gc_change (c : change) : list (string * report) :=
+  match c_op c, c_res c with
+  | AddOrUpdate, RVS vc =>
+      (rkey (c_res c), ROk (nonempty (vc_warnings vc))) ::
+      map (fun x => (vsr_pkey x, ROk false)) (filter (fun x => negb (String.eqb (m_uid (r_meta x)) "")) (vc_vsrs vc))
+  | AddOrUpdate, RTS tc => [(rkey (c_res c), ROk (nonempty (tc_warnings tc)))]
+  | _, _ => []
+  end.
+
+(* the Events the controller emits also name the routes synthesised from challenge Ingresses *)
+Definition synthetic_vsr_reports (c : change) : list (string * report) :=
+  match c_op c, c_res c with
+  | AddOrUpdate, RVS vc => map (fun x => (vsr_pkey x, ROk false)) (filter (fun x => String.eqb (m_uid (r_meta x)) "") (vc_vsrs vc))
+  | _, _ => []
+  end.
+
+Definition is_gc_event (e : event) : bool := match e with EGC _ _ | EDelGC => true | _ => false end.
+
+Definition reports_of_step_ev (e : event) (in_cluster : string -> bool) (ob : obs) : list (string * report) :=
+  (if is_gc_event e then flat_map reports_of_gc_change (ob_changes ob)
+   else flat_map (reports_of_change in_cluster) (ob_changes ob)) +++
+  map (fun p => (p_obj p, RProblem (p_is_error p) (p_reason p))) (ob_problems ob).
+
 Definition reports_of_step (in_cluster : string -> bool) (ob : obs) : list (string * report) :=
   flat_map (reports_of_change in_cluster) (ob_changes ob) +++
   map (fun p => (p_obj p, RProblem (p_is_error p) (p_reason p))) (ob_problems ob).
@@ -494,7 +519,7 @@ Fixpoint c05_run (cf : cfg) (cl : smap event) (last : smap report) (es : list ev
   match es, os with
   | e :: er, ob :: orest =>
       let cl' := cluster_apply cl e in
-      let last' := fold_left (fun m kr => insert (fst kr) (snd kr) m) (reports_of_step (fun k => mem k cl') ob) last in
+      let last' := fold_left (fun m kr => insert (fst kr) (snd kr) m) (reports_of_step_ev e (fun k => mem k cl') ob) last in
       if negb (error_reported e ob) then (i, 9)
       else
         match filter_map (fun kv => let d := truthful cf ob last' (fst kv) (snd kv) in if d =? 0 then None else Some d) cl' with
@@ -515,10 +540,71 @@ Fixpoint c05_who (cf : cfg) (cl : smap event) (last : smap report) (es : list ev
   match es, os with
   | e :: er, ob :: orest =>
       let cl' := cluster_apply cl e in
-      let last' := fold_left (fun m kr => insert (fst kr) (snd kr) m) (reports_of_step (fun k => mem k cl') ob) last in
+      let last' := fold_left (fun m kr => insert (fst kr) (snd kr) m) (reports_of_step_ev e (fun k => mem k cl') ob) last in
       match filter_map (fun kv => let d := truthful cf ob last' (fst kv) (snd kv) in if d =? 0 then None else Some (fst kv, d)) cl' with
       | [] => c05_who cf cl' last' er orest
       | l => l
       end
   | _, _ => []
   end.
+
+
+(* ---- C05 / C16 at the level of the controller: the Events actually recorded ---- *)
+
+(* class of a recorded Event: 1 success, 2 success with warning, 3 rejection, 4 problem *)
+Definition report_code (r : report) : Z :=
+  match r with
+  | ROk false => 1 | ROk true => 2 | RRejected => 3
+  | RProblem _ reason => if String.eqb reason "Rejected" then 3 else 4
+  end.
+
+Definition report_of_code (z : Z) : report :=
+  if z =? 1 then ROk false else if z =? 2 then ROk true else if z =? 3 then RRejected else RProblem false "problem".
+
+Fixpoint zinsert (x : string * Z) (l : list (string * Z)) : list (string * Z) :=
+  match l with
+  | [] => [x]
+  | y :: r => if String.ltb (fst x) (fst y) || (String.eqb (fst x) (fst y) && (snd x <=? snd y)) then x :: l else y :: zinsert x r
+  end.
+Definition zsort (l : list (string * Z)) : list (string * Z) := fold_right zinsert [] l.
+
+Definition evs_dec := list_eq_dec (pair_dec string_dec Z.eq_dec).
+
+(* real Events of one sync (GlobalConfiguration's own events removed by the harness), as (object, class) *)
+Record ctl := mkCtl { ct_events : list (string * Z); ct_writes : list string; ct_obs : obs;
+                      ct_verr_expected : bool;   (* the object of this sync is of our class and fails validation *)
+                      ct_verr_reported : bool    (* an Event about it carried the text of the validation error *) }.
+
+(* returns (first step where the model's reports differ from the recorded Events,
+            first step whose accumulated real Events are not truthful, its code,
+            first step at which a foreign-class object received an Event or a status write) *)
+Fixpoint ctl_run (cf : cfg) (cl : smap event) (last : smap report) (es : list event) (os : list obs) (cs : list ctl)
+         (i : Z) (acc : Z * Z * Z * Z) : Z * Z * Z * Z :=
+  match es, os, cs with
+  | e :: er, ob :: orest, ct :: crest =>
+      let '(dx, ds, dc, df) := acc in
+      let cl' := cluster_apply cl e in
+      (* success with and without warning are not distinguished here: the Configurator adds warnings of its
+         own (missing Secret, ...) that the arbitration model does not know *)
+      let merge := fun z : Z => if z =? 2 then 1 else z in
+      let model := zsort (map (fun kr => (fst kr, merge (report_code (snd kr))))
+                              (reports_of_step_ev e (fun k => mem k cl') ob +++ flat_map synthetic_vsr_reports (ob_changes ob))) in
+      let real := zsort (map (fun kr => (fst kr, merge (snd kr))) (ct_events ct)) in
+      let last' := fold_left (fun m kr => insert (fst kr) (report_of_code (snd kr)) m) (ct_events ct) last in
+      let bad := filter_map (fun kv => let d := truthful cf (ct_obs ct) last' (fst kv) (snd kv) in if d =? 0 then None else Some d) cl' in
+      let foreign := match event_obj e with
+                     | Some (k, false) => existsb (fun x => String.eqb (fst x) k) (ct_events ct) || existsb (String.eqb k) (ct_writes ct)
+                     | _ => false end in
+      ctl_run cf cl' last' er orest crest (i + 1)
+              (if (dx =? 0) && negb (eqb_of evs_dec model real) then i else dx,
+               if (ds =? 0) && (nonempty bad || (ct_verr_expected ct && negb (ct_verr_reported ct))) then i else ds,
+               if (ds =? 0) && (nonempty bad || (ct_verr_expected ct && negb (ct_verr_reported ct)))
+               then (if ct_verr_expected ct && negb (ct_verr_reported ct) then 9 else hd 0 bad) else dc,
+               if (df =? 0) && foreign then i else df)
+  | _, _, _ => acc
+  end.
+
+Definition ctl_case (id : Z) (c : cfg) (es : list event) (os : list obs) (final : obs)
+           (alts : list (list event * obs)) (cs : list ctl) : list Z :=
+  let '(dx, ds, dc, df) := ctl_run c [] [] es os cs 1 (0, 0, 0, 0) in
+  [id; dx; ds; dc; df; Z.of_nat (List.length es)].
